@@ -60,8 +60,7 @@ func compare(a, b *node, max int) []diff {
 			out = append(out, diff{Path: strings.Join(path, "/"), Norm: strings.Join(norm, "."), A: a.label, B: b.label})
 			return
 		}
-		// edges by name, in order; missing/extra edges are differences
-		ia, ib := 0, 0
+		// edges by name; missing/extra edges are differences (ordered collections use index names)
 		bn := map[string]*node{}
 		for _, e := range b.kids {
 			bn[e.name] = e.to
@@ -70,8 +69,6 @@ func compare(a, b *node, max int) []diff {
 		for _, e := range a.kids {
 			an[e.name] = e.to
 		}
-		_ = ia
-		_ = ib
 		for _, e := range a.kids {
 			o, ok := bn[e.name]
 			np := append(append([]string{}, path...), e.name)
@@ -95,7 +92,6 @@ func compare(a, b *node, max int) []diff {
 				}
 			}
 		}
-		// order of edges (ordered collections use index names, so only maps/structs reach here unordered)
 	}
 	rec(a, b, nil, nil)
 	return out
@@ -257,6 +253,16 @@ func (d *apiDumper) val(v reflect.Value) *node {
 			if !f.IsExported() {
 				continue
 			}
+			if f.Name == "Required" && f.Type.Kind() == reflect.Slice && f.Type.Elem().Kind() == reflect.String {
+				// JSON Schema "required" is a set of names
+				var names []string
+				for k := 0; k < v.Field(i).Len(); k++ {
+					names = append(names, v.Field(i).Index(k).String())
+				}
+				sort.Strings(names)
+				n.kids = append(n.kids, edge{f.Name, leaf("set %q", names)})
+				continue
+			}
 			n.kids = append(n.kids, edge{f.Name, d.val(v.Field(i))})
 		}
 		return n
@@ -343,19 +349,57 @@ func compactJSON(b []byte) string {
 // shaper builds the IR shape graph: everything the generated code's behaviour
 // depends on, without Go identifiers derived from reference names.
 type shaper struct {
-	memo map[*ir.Type]*node
+	memo   map[*ir.Type]*node
+	issues IRIssues
+}
+
+// IRIssues are direct (non-differential) observations on one generator IR.
+type IRIssues struct {
+	// a response for a fixed status code whose types carry a StatusCode field, or a default / pattern
+	// response whose types do not (the generated encoder then has no status code to write)
+	StatusCode []string
+	// a response whose wrapper struct does not consist of exactly its own headers (+ StatusCode) + Response
+	Wrapper []string
+	// a response header generated under another name than the one it is declared under
+	HeaderName []string
+}
+
+func (i *IRIssues) Any() bool {
+	return i != nil && (len(i.StatusCode) > 0 || len(i.Wrapper) > 0 || len(i.HeaderName) > 0)
 }
 
 // IR fields that are deliberately not part of the shape (listed in the evidence).
 var irExcluded = []string{
 	"Type.Name", "Type.Doc", "Type.Features", "Type.Implements", "Type.Implementations", "Type.InterfaceMethods",
 	"Type.Schema (only Type/Format/Default/ContentEncoding are read)", "Type.AllowedProps",
-	"KindAlias (looked through: shape of AliasTo)", "Field.Name when a JSON tag exists", "EnumVariant.Name",
+	"KindAlias (looked through: shape of AliasTo)", "KindPointer (shown as the optional/nullable generic box it stands for)", "Field.Name when a JSON tag exists", "EnumVariant.Name",
 	"SumSpec.DefaultMapping (type name)", "Parameter.Name (Go name)", "Operation.Spec (API dump covers it)",
 }
 
-func ShapeIR(g *gen.Generator) *node {
+func ShapeIR(g *gen.Generator) (*node, *IRIssues) {
 	s := &shaper{memo: map[*ir.Type]*node{}}
+	for _, ops := range [][]*ir.Operation{g.Operations(), g.Webhooks()} {
+		for _, op := range ops {
+			if op.Responses == nil {
+				continue
+			}
+			key := opKey(op)
+			for c, r := range op.Responses.StatusCode {
+				s.checkResponse(fmt.Sprintf("%s response %d", key, c), r, false)
+			}
+			for i, r := range op.Responses.Pattern {
+				if r != nil {
+					s.checkResponse(fmt.Sprintf("%s response %dXX", key, i+1), r, true)
+				}
+			}
+			if r := op.Responses.Default; r != nil {
+				s.checkResponse(key+" response default", r, true)
+			}
+		}
+	}
+	sort.Strings(s.issues.StatusCode)
+	sort.Strings(s.issues.Wrapper)
+	sort.Strings(s.issues.HeaderName)
 	root := &node{label: "ir"}
 	ops := &node{label: "operations"}
 	for _, op := range g.Operations() {
@@ -368,7 +412,66 @@ func ShapeIR(g *gen.Generator) *node {
 	}
 	sortEdges(wh)
 	root.kids = []edge{{"Operations", ops}, {"Webhooks", wh}}
-	return root
+	return root, &s.issues
+}
+
+func (s *shaper) checkResponse(where string, r *ir.Response, manyCodes bool) {
+	for k, h := range r.Headers {
+		if h != nil && h.Spec != nil && h.Spec.Name != k {
+			s.issues.HeaderName = append(s.issues.HeaderName, fmt.Sprintf("%s: header declared as %q is generated as %q", where, k, h.Spec.Name))
+		}
+	}
+	if r.WithStatusCode != manyCodes {
+		s.issues.StatusCode = append(s.issues.StatusCode, fmt.Sprintf("%s: WithStatusCode=%v", where, r.WithStatusCode))
+		return
+	}
+	var hdr []string
+	var keys []string
+	for k := range r.Headers {
+		keys = append(keys, k)
+	}
+	sort.Strings(keys)
+	for _, k := range keys {
+		hdr = append(hdr, r.Headers[k].Name)
+	}
+	names := func(t *ir.Type) []string {
+		for t != nil && t.Kind == ir.KindAlias {
+			t = t.AliasTo
+		}
+		if t == nil || t.Kind != ir.KindStruct {
+			return nil
+		}
+		var n []string
+		for _, f := range t.Fields {
+			n = append(n, f.Name)
+		}
+		return n
+	}
+	if len(hdr) == 0 && !r.WithStatusCode {
+		return
+	}
+	for ct, m := range r.Contents {
+		want := []string{}
+		if r.WithStatusCode {
+			want = append(want, "StatusCode")
+		}
+		want = append(want, hdr...)
+		want = append(want, "Response")
+		got := names(m.Type)
+		if fmt.Sprint(got) != fmt.Sprint(want) {
+			s.issues.Wrapper = append(s.issues.Wrapper, fmt.Sprintf("%s %s: wrapper fields %v, the response's own are %v", where, ct, got, want))
+		}
+	}
+	if r.NoContent != nil {
+		want := append([]string{}, hdr...)
+		if r.WithStatusCode {
+			want = append(want, "StatusCode")
+		}
+		got := names(r.NoContent)
+		if fmt.Sprint(got) != fmt.Sprint(want) {
+			s.issues.Wrapper = append(s.issues.Wrapper, fmt.Sprintf("%s (no content): fields %v, the response's own are %v", where, got, want))
+		}
+	}
 }
 
 func sortEdges(n *node) {
@@ -569,8 +672,12 @@ func (s *shaper) typ(t *ir.Type) *node {
 	}
 	switch t.Kind {
 	case ir.KindPointer:
-		add("NilSemantic", leaf("%q", t.NilSemantic))
-		add("PointerTo", s.typ(t.PointerTo))
+		// a pointer is ogen's boxing of an optional / nullable value where a generic wrapper would make the
+		// type infinitely large (recursive schemas); an unrolled copy of the same schema gets the generic
+		// wrapper instead: both are shown as the same optional/nullable box
+		n.label = "type generic"
+		add("Variant", leaf("optional=%v nullable=%v", t.NilSemantic == ir.NilOptional, t.NilSemantic == ir.NilNull))
+		add("GenericOf", s.typ(t.PointerTo))
 	case ir.KindArray:
 		add("NilSemantic", leaf("%q", t.NilSemantic))
 		add("Item", s.typ(t.Item))
